@@ -380,5 +380,28 @@ func VP_C19_Late() {
 	}
 	vpAssert(vpSameNodes(pre, vpPre(root, nil)), "PreOrder taken before the tree was built traverses the tree as it is when ranged")
 	vpAssert(vpSameNodes(post, vpPost(root, nil)), "PostOrder taken before the tree was built traverses the tree as it is when ranged")
+	// the tree changes again (a leaf added under the last node of the
+	// pre-order, the first child of the root removed) and the SAME iterator
+	// values are ranged once more: they walk the tree as it is now
+	last := pre[len(pre)-1]
+	last.Children = append(last.Children, &Node{Name: "late"})
+	if len(root.Children) > 1 {
+		root.Children = root.Children[1:]
+	}
+	pre, post = nil, nil
+	for nd := range preSeq {
+		pre = append(pre, nd)
+		if len(pre) > 4*n+8 {
+			break
+		}
+	}
+	for nd := range postSeq {
+		post = append(post, nd)
+		if len(post) > 4*n+8 {
+			break
+		}
+	}
+	vpAssert(vpSameNodes(pre, vpPre(root, nil)), "PreOrder ranged again after the tree changed traverses the tree as it is now")
+	vpAssert(vpSameNodes(post, vpPost(root, nil)), "PostOrder ranged again after the tree changed traverses the tree as it is now")
 	vpReach("end")
 }
